@@ -251,3 +251,12 @@ Definition cfg_pinned (eps : float) (digits : nat) : ncfg :=
   {| cfg_eps := eps; cfg_rel := 0x1.12e0be826d695p-30%float (* 1e-9 *); cfg_digits := digits; cfg_strict := false |}.
 Definition cfg_fixed (eps : float) (digits : nat) : ncfg :=
   {| cfg_eps := eps; cfg_rel := 0%float; cfg_digits := digits; cfg_strict := true |}.
+
+(* ------------------------------------------------------------------ GroundedEffect.apply, numeric part *)
+(* grounded_effect.py:170-195: EVERY numeric effect of the group is evaluated first (set_expression_value from the
+   previous state's fluents, then evaluate_expression), the results are stored afterwards, one after the other, into
+   the state being built ([cur]; Operator.apply passes a copy of the previous state).  The list is the iteration
+   order of the Python set of effects. *)
+Definition apply_effects (cfg : ncfg) (prev cur : fluents) (effs : list ntree) : result fluents :=
+  do rs <- mapM (evaluate cfg prev) effs;
+  Ok (fold_left write_back rs cur).
